@@ -10,7 +10,7 @@ import itertools, math
 import numpy as np
 from . import common
 
-THEOREM_FILES = ['NumqiProps/C03.lean', 'NumqiProps/C03Gates.lean']
+THEOREM_FILES = ['NumqiProps/C03.lean', 'NumqiProps/C03Gates.lean', 'NumqiProps/C03Prog.lean']
 LEVEL = 'proof'
 RULE = ('one evaluation = one call of the real routine (apply_gate, apply_control_n_gate, dm.apply_gate, operator_expectation, '
         'inner_product_psi0_O_psi1, reduce_to_probability, Circuit.apply_state, Circuit.to_unitary) on a generated input, compared with '
@@ -18,8 +18,9 @@ RULE = ('one evaluation = one call of the real routine (apply_gate, apply_contro
         'size 1..3 and every control subset for n<=5 (quick) / n<=6 (thorough). An input is non-trivial unless the operator is the identity '
         'or the state is zero; distinct = distinct (routine, n, index pattern, operator kind) combinations.')
 TRUSTED = ['Lean 4.33 kernel', 'axioms: propext, Classical.choice, Quot.sound', 'Lean compiler for the driver executable',
-           'harness/c03.py: canonicalisation, reference gate arrays (X,Y,Z,H,S,T,Swap,rx,ry,rz,u3,rzz), translation of a gate program into '
-           'the model\'s raw gate list, the np.kron oracle',
+           'harness/c03.py: canonicalisation, the np.kron oracle and its reference gate arrays; the translation of a program step into the '
+           'model\'s statement of the same name (u/c/x/m entry, v named method, s shift, e extend_circuit, n refused entry) — '
+           'append_gate / extend_circuit / shift_qubit_index_ are executed by the model (runProg), not flattened here',
            'modelled, not verified: numqi/sim/state.py, dm.py, circuit.py; opt_einsum.contract is modelled as the einsum it denotes',
            'not modelled: rounding for non-integer gates (bounded by the 1e-10 comparison), numpy RNG']
 
@@ -419,25 +420,32 @@ def inner_cases(ctx, rng):
         n = int(rng.integers(1, 7))
         psi0, psi0_a, _ = state_form(rng, rand_gi(rng, 2 ** n, -2, 2))
         psi1, psi1_a, sdt = state_form(rng, rand_gi(rng, 2 ** n, -2, 2))
-        nf = int(rng.integers(1, 4))
-        term, steps = [], []
-        for _ in range(nf):
-            k = int(rng.integers(1, min(n, 3) + 1))
-            t = tuple(int(x) for x in rng.permutation(n)[:k])
-            U = rand_op(rng, k, 'general' if nf == 1 else 'sparse')
-            U = np.clip(U.real, -2, 2) + 1j * np.clip(U.imag, -2, 2)
-            term.append((U,) + t)
-            steps.append(f'u:{idx_str(t)}:{enc_z(U)}')
-        def oracle(psi0=psi0, psi1=psi1, term=term, n=n):
-            M = np.eye(2 ** n, dtype=np.complex128)
-            for f in term:
-                M = M @ oracle_embed(f[0], f[1:], n)
-            return np.vdot(psi0, M @ psi1).reshape(1)
-        cases.append(Case(f'C03 inner Z {n} {enc_z(psi0)} {enc_z(psi1)} {"|".join(steps)}',
-                          (lambda psi0=psi0_a, psi1=psi1_a, term=term: st.inner_product_psi0_O_psi1(psi0, psi1, [term])),
-                          oracle, key='inner_product_psi0_O_psi1', ntkey=('inner', n, nf, tuple(f[1:] for f in term)),
-                          replay=dict(fn='inner_product_psi0_O_psi1', n=n, psi0=repr(psi0.tolist()), psi1=repr(psi1.tolist()),
-                                      term=repr([(f[0].tolist(),) + f[1:] for f in term]))))
+        nterms = int(rng.integers(1, 4))           # the sum over operators: one result entry per term (state.py:227-232)
+        terms, texts = [], []
+        for _ in range(nterms):
+            nf = int(rng.integers(1, 4))
+            term, steps = [], []
+            for _ in range(nf):
+                k = int(rng.integers(1, min(n, 3) + 1))
+                t = tuple(int(x) for x in rng.permutation(n)[:k])
+                U = rand_op(rng, k, 'general' if nf == 1 else 'sparse')
+                U = np.clip(U.real, -2, 2) + 1j * np.clip(U.imag, -2, 2)
+                term.append((U,) + t)
+                steps.append(f'u:{idx_str(t)}:{enc_z(U)}')
+            terms.append(term); texts.append('|'.join(steps))
+        for i, term in enumerate(terms):
+            def oracle(psi0=psi0, psi1=psi1, term=term, n=n):
+                M = np.eye(2 ** n, dtype=np.complex128)
+                for f in term:
+                    M = M @ oracle_embed(f[0], f[1:], n)
+                return np.vdot(psi0, M @ psi1).reshape(1)
+            def impl(psi0=psi0_a, psi1=psi1_a, terms=terms, i=i):
+                r = np.asarray(st.inner_product_psi0_O_psi1(psi0, psi1, terms))
+                return r[i:i + 1] if r.shape == (len(terms),) else 'error:shape'
+            cases.append(Case(f'C03 inner Z {n} {enc_z(psi0)} {enc_z(psi1)} {texts[i]}', impl,
+                              oracle, key='inner_product_psi0_O_psi1', ntkey=('inner', n, nterms, i, tuple(f[1:] for f in term)),
+                              replay=dict(fn='inner_product_psi0_O_psi1', n=n, psi0=repr(psi0.tolist()), psi1=repr(psi1.tolist()),
+                                          term=repr([(f[0].tolist(),) + f[1:] for f in term]), number_of_terms=nterms, item=i)))
     return cases
 
 
@@ -538,10 +546,12 @@ def make_step(rng, n, name):
         return (name, pick_targets(rng, n, 1), tuple(float(x) for x in rng.uniform(-4, 4, size=3)))
     if name == 'rzz':
         return (name, pick_targets(rng, n, 2), (float(rng.uniform(-4, 4)),))
-    if name in ('crx', 'cry', 'crz'):
-        q = pick_targets(rng, n, 2); return (name, (q[0],), (q[1],), (float(rng.uniform(-4, 4)),))
-    if name == 'cu3':
-        q = pick_targets(rng, n, 2); return (name, (q[0],), (q[1],), tuple(float(x) for x in rng.uniform(-4, 4, size=3)))
+    if name in ('crx', 'cry', 'crz', 'cu3'):
+        # `_control_parameter_gate` takes any number of controls (circuit.py:82-96)
+        nc = int(rng.integers(1, n))
+        q = pick_targets(rng, n, nc + 1)
+        args = (float(rng.uniform(-4, 4)),) if name != 'cu3' else tuple(float(x) for x in rng.uniform(-4, 4, size=3))
+        return (name, q[:nc], (q[nc],), args)
     raise RuntimeError('unknown gate ' + name)
 
 
@@ -626,9 +636,13 @@ class CircuitBuilder:
         elif name == 'rzz':
             obj = circ.rzz(st[1], st[2][0])
         elif name in ('crx', 'cry', 'crz'):
-            obj = getattr(circ, name)(st[1][0], st[2][0], st[3][0])
+            obj = getattr(circ, name)(st[1][0] if len(st[1]) == 1 else tuple(st[1]), st[2][0], st[3][0])
         elif name == 'cu3':
-            obj = circ.cu3(st[1][0], st[2][0], st[3])
+            obj = circ.cu3(st[1][0] if len(st[1]) == 1 else tuple(st[1]), st[2][0], st[3])
+        elif name == 'kraus':
+            obj = getattr(circ, st[1])(st[2], st[3])          # dephasing / depolarizing / amplitude_damping: Kraus entries
+        elif name == 'unsetP':
+            obj = getattr(circ, st[1])(st[2][0], circ.P['never_set'])   # placeholder whose parameter is never supplied
         elif name == 'shift':
             circ.shift_qubit_index_(st[1])
         elif name == 'extend':
@@ -784,6 +798,10 @@ def step_semantics(st):
         return [('s', st[1])]
     if name == 'extend':
         return program_semantics(st[1])
+    if name == 'measure':
+        return [('m', tuple(st[1]))]
+    if name in ('kraus', 'unsetP'):
+        return [('n',)]
     raise RuntimeError('unknown step ' + name)
 
 
@@ -805,6 +823,32 @@ def program_text(sem, enc):
             out.append(f'x:{enc(x[1])}')
         elif x[0] == 's':
             out.append(f's:{x[1]}')
+        elif x[0] == 'm':
+            out.append(f'm:{idx_str(x[1])}:{"0" * len(x[1])}')
+        elif x[0] == 'n':
+            out.append('n')
+    return '|'.join(out) if out else '-'
+
+
+def steps_text(steps, enc):
+    """the program as the model's statements (`Stmt` of NumqiModel/Gates.lean): single entries, named methods, shifts, and
+    `e:` = extend_circuit of a sub-program — nothing is flattened here; re-use of a gate object is `append_gate` of the same
+    array at the new placement"""
+    out, per = [], []
+    for st in steps:
+        if st[0] == 'reuse':
+            e = per[st[1]][0]
+            cur = [('u', e[1], tuple(st[2]), None)] if e[0] == 'u' else [('c', e[1], tuple(st[2]), tuple(st[3]), None)] if e[0] == 'c' else [e]
+            out.append(program_text(cur, enc))
+        elif st[0] in ('extend', 'extend2'):
+            sub = steps_text(st[1], enc).replace('|', '!')
+            cur = program_semantics(st[1])
+            out += ['e:' + ('' if sub == '-' else sub)] * (2 if st[0] == 'extend2' else 1)
+            cur = cur * (2 if st[0] == 'extend2' else 1)
+        else:
+            cur = step_semantics(st)
+            out.append(program_text(cur, enc))
+        per.append(cur)
     return '|'.join(out) if out else '-'
 
 
@@ -839,6 +883,8 @@ def program_width(sem):
             idx += list(x[2])
         elif x[0] == 'c':
             idx += list(x[2]) + list(x[3])
+        elif x[0] == 'm':
+            idx += list(x[1])
     return (max(idx) + 1) if idx else 0
 
 
@@ -901,6 +947,41 @@ def circuit_cases(ctx, rng):
         if width == 0 or width > 6 or program_min_index(sem) < 0:
             continue
         cases += program_cases(rng, steps, sem, width, width, ('history', it), with_indices=True)
+    # programs holding a MeasureGate: to_unitary must refuse (circuit.py:445), num_qubit counts the measured qubits (:463-464)
+    for it in range(25 if ctx.quick() else 200):
+        n0 = int(rng.integers(1, 5))
+        steps = gen_program(rng, n0, int(rng.integers(0, 4)), integer_only=True, allow_custom=False)
+        m = int(rng.integers(1, n0 + 2))
+        top = n0 + int(rng.integers(0, 2))          # sometimes the measure alone reaches the top qubit
+        subset = tuple(sorted(int(x) for x in rng.permutation(top)[:min(m, top)]))
+        steps.insert(int(rng.integers(0, len(steps) + 1)), ('measure', subset, int(rng.integers(0, 2 ** 31))))
+        if rng.integers(0, 3) == 0:
+            steps.append(('shift', int(rng.integers(1, 3))))
+        sem = program_semantics(steps)
+        if program_width(sem) > 6:
+            continue
+        text = steps_text(steps, enc_z)
+        desc = describe(steps)
+        cases.append(Case(f'C03 unitary Z {text}', (lambda steps=steps: build_circuit(steps).to_unitary()), None, key='Circuit.to_unitary(measure)',
+                          ntkey=('unitary-measure', it), replay=dict(fn='Circuit.to_unitary', program=repr(desc))))
+        cases.append(Case(f'C03 width Z {text}', (lambda steps=steps: str(int(build_circuit(steps).num_qubit))),
+                          (lambda sem=sem: str(program_width(sem))), key='Circuit.num_qubit', ntkey=('width-measure', it),
+                          replay=dict(fn='Circuit.num_qubit', program=repr(desc))))
+    # entries apply_state refuses: a placeholder gate never given a value (circuit.py:497-498), Kraus entries (:509)
+    for it in range(12 if ctx.quick() else 80):
+        n0 = int(rng.integers(1, 4))
+        steps = gen_program(rng, n0, int(rng.integers(0, 4)), integer_only=True, allow_custom=False)
+        q = int(rng.integers(0, n0))
+        bad = [('unsetP', 'rx', (q,)), ('unsetP', 'u3', (q,)), ('kraus', 'dephasing', q, (0.1,)), ('kraus', 'depolarizing', q, (0.2,)),
+               ('kraus', 'amplitude_damping', q, (0.3,))][int(rng.integers(0, 5))]
+        steps.insert(int(rng.integers(0, len(steps) + 1)), bad)
+        psi = rand_gi(rng, 2 ** n0, -2, 2)
+        text = steps_text(steps, enc_z)
+        desc = describe(steps)
+        cases.append(Case(f'C03 circ Z {n0} {text} {enc_z(psi)}', (lambda steps=steps, psi=psi: build_circuit(steps).apply_state(psi)), None,
+                          key='Circuit.apply_state(refused entry)', ntkey=('refused', bad[0], bad[1], it), replay=dict(fn='Circuit.apply_state', program=repr(desc))))
+        cases.append(Case(f'C03 unitary Z {text}', (lambda steps=steps: build_circuit(steps).to_unitary()), None,
+                          key='Circuit.to_unitary(refused entry)', ntkey=('refused-unitary', bad[0], it), replay=dict(fn='Circuit.to_unitary', program=repr(desc))))
     # the same kind='custom' object applied twice (no shift: a custom gate is tied to the register width)
     for it in range(6 if ctx.quick() else 40):
         n0 = int(rng.integers(1, 4))
@@ -1095,7 +1176,7 @@ def program_cases(rng, steps, sem, n, width, it, with_indices=False):
         enc = enc_z if is_int else enc_q
         ring = 'Z' if is_int else 'Q'
         psi, psi_a, sdt = state_form(rng, rand_gi(rng, 2 ** n, -2, 2))
-        text = program_text(sem, enc)
+        text = steps_text(steps, enc)
         desc = describe(steps)
         kinds = tuple(sorted({s[0] for s in steps}))
         cases.append(Case(f'C03 circ {ring} {n} {text} {enc(psi)}',
@@ -1109,6 +1190,8 @@ def program_cases(rng, steps, sem, n, width, it, with_indices=False):
                               (lambda sem=sem, width=width: np.concatenate([[width], oracle_program_matrix(sem, width).reshape(-1)])),
                               approx=not is_int, key='Circuit.to_unitary', ntkey=('unitary', ring, width, kinds, it),
                               replay=dict(fn='Circuit.to_unitary', program=repr(desc))))
+        cases.append(Case(f'C03 width {ring} {text}', (lambda steps=steps: str(int(build_circuit(steps).num_qubit))), None,
+                          key='Circuit.num_qubit', ntkey=('width', kinds, it), replay=dict(fn='Circuit.num_qubit', program=repr(desc))))
         if with_indices:
             cases.append(Case(f'C03 indices {ring} {text}', (lambda steps=steps: index_list_of(build_circuit(steps))),
                               (lambda sem=sem: intended_index_list(sem)), key='Circuit.gate_index_list', ntkey=('indices', kinds, it),
@@ -1164,6 +1247,27 @@ def vocabulary_cases(ctx, rng):
         for a in angles:
             cases.append(Case(f'C03 gatemat Q {name} {enc_pairs(vocab_pairs(name, a), enc_q)}', (lambda name=name, a=a: np.asarray(getattr(G, name)(*a), dtype=np.complex128)),
                               approx=True, key='numqi.gate-constructor', ntkey=('gatemat', name, a), replay=dict(fn='numqi.gate.' + name, args=list(a))))
+    # numpy-batched constructors: result shape (*theta.shape, d, d) (gate/_internal.py:183-185, 205-207, 259-266, 96-101, 283-287)
+    for name, na in [('rx', 1), ('ry', 1), ('rz', 1), ('rzz', 1), ('u3', 3)]:
+        for shape in ([(3,), (2, 2)] if ctx.quick() else [(5,), (2, 3), (1,), (2, 1, 2)]):
+            th = [rng.uniform(-7, 7, size=shape) for _ in range(na)]
+            th[0].reshape(-1)[0] = 0.0
+            for i in range(int(np.prod(shape))):
+                a = tuple(float(t.reshape(-1)[i]) for t in th)
+                d = 4 if name == 'rzz' else 2
+                cases.append(Case(f'C03 gatemat Q {name} {enc_pairs(vocab_pairs(name, a), enc_q)}',
+                                  (lambda name=name, th=th, i=i, d=d, shape=shape: (lambda r: r.reshape(-1, d, d)[i] if r.shape == tuple(shape) + (d, d) else 'error:shape')(
+                                      np.asarray(getattr(G, name)(*th), dtype=np.complex128))),
+                                  approx=True, key='numqi.gate-constructor(batched)', ntkey=('gatemat-batched', name, shape, i),
+                                  replay=dict(fn='numqi.gate.' + name, batched_shape=list(shape), item=i, args=list(a))))
+    # rz(diag_only=True): only the diagonal (gate/_internal.py:262-263), scalar and batched
+    for a in SPECIAL_ANGLES[:6] + [float(x) for x in rng.uniform(-7, 7, size=nrand)]:
+        cases.append(Case(f'C03 gatemat Q rz {enc_pairs(vocab_pairs("rz", (a,)), enc_q)}',
+                          (lambda a=a: np.diag(np.asarray(G.rz(a, diag_only=True), dtype=np.complex128))), approx=True,
+                          key='numqi.gate.rz(diag_only)', ntkey=('gatemat-diag', a), replay=dict(fn='numqi.gate.rz', diag_only=True, args=[a])))
+        cases.append(Case(f'C03 gatemat Q rz {enc_pairs(vocab_pairs("rz", (a,)), enc_q)}',
+                          (lambda a=a: np.diag(np.asarray(G.rz(np.array([0.3, a]), diag_only=True), dtype=np.complex128)[1])), approx=True,
+                          key='numqi.gate.rz(diag_only)', ntkey=('gatemat-diag-batched', a), replay=dict(fn='numqi.gate.rz', diag_only=True, args=[[0.3, a]])))
     # Circuit methods
     def appended(call):
         circ = numqi.sim.Circuit()
@@ -1202,6 +1306,13 @@ def vocab_table(q, a1, a3):
             ('u3', q[:1], a3, lambda c: c.u3(q[0], a3)), ('rzz', q[:2], (a1,), lambda c: c.rzz((q[0], q[1]), a1)),
             ('crx', q[:2], (a1,), lambda c: c.crx(q[0], q[1], a1)), ('cry', q[:2], (a1,), lambda c: c.cry(q[0], q[1], a1)),
             ('crz', q[:2], (a1,), lambda c: c.crz(q[0], q[1], a1)), ('cu3', q[:2], a3, lambda c: c.cu3(q[0], q[1], a3)),
+            # `_control_parameter_gate` with several controls (circuit.py:82-96)
+            ('crx', q[:3], (a1,), lambda c: c.crx((q[0], q[1]), q[2], a1)), ('cry', q[:4], (a1,), lambda c: c.cry((q[0], q[1], q[2]), q[3], a1)),
+            ('crz', q[:3], (a1,), lambda c: c.crz([q[0], q[1]], q[2], a1)), ('cu3', q[:4], a3, lambda c: c.cu3((q[0], q[1], q[2]), q[3], a3)),
+            # `args=None`: the angles are initialised to zero (circuit.py:71-72, 86-87)
+            ('rx', q[:1], (0.0,), lambda c: c.rx(q[0])), ('ry', q[:1], (0.0,), lambda c: c.ry(q[0])), ('rz', q[:1], (0.0,), lambda c: c.rz(q[0])),
+            ('u3', q[:1], (0.0, 0.0, 0.0), lambda c: c.u3(q[0])), ('rzz', q[:2], (0.0,), lambda c: c.rzz((q[0], q[1]))),
+            ('crx', q[:2], (0.0,), lambda c: c.crx(q[0], q[1])), ('cu3', q[:3], (0.0, 0.0, 0.0), lambda c: c.cu3((q[0], q[1]), q[2])),
             # parameters supplied later through the placeholder mechanism
             ('rx', q[:1], (a1,), lambda c: (c.rx(q[0], c.P['t']), c.setP(t=a1))), ('u3', q[:1], a3, lambda c: (c.u3(q[0], c.P['w']), c.setP(w=np.array(a3)))),
             ('rz', q[:1], (a1,), lambda c: (c.rz(q[0], c.P[0]), c.setP([a1, 0.5]))),
@@ -1220,7 +1331,7 @@ def slice_cases(ctx, rng):
         shape = tuple(int(x) for x in rng.integers(2, 6, size=L))
         index = tuple((None if rng.integers(0, 2) else int(rng.integers(0, d))) for d in shape)
         cases.append(Case('C03 rsi ' + enc_ri(shape, index), (lambda shape=shape, index=index: enc_ri(*st.reduce_shape_index(shape, index))),
-                          key='reduce_shape_index', ntkey=('rsi', shape, index), soft=True))
+                          key='reduce_shape_index', ntkey=('rsi', shape, index)))
     nmax = 5 if ctx.quick() else 7
     for n in range(1, nmax + 1):
         for r in range(0, n + 1):
@@ -1232,7 +1343,7 @@ def slice_cases(ctx, rng):
                     return ';'.join(str(int(x)) for x in pos) + ' slice=bitwise'
                 def o(n=n, c=c):
                     return [p for p in range(2 ** n) if all((p >> (n - 1 - q)) & 1 for q in c)]
-                cases.append(Case(f'C03 slicepos {n} {idx_str(c)}', f, key='control-slice', ntkey=('slicepos', n, c), soft=True))
+                cases.append(Case(f'C03 slicepos {n} {idx_str(c)}', f, key='control-slice', ntkey=('slicepos', n, c)))
     return cases
 
 
@@ -1497,6 +1608,36 @@ def gate_derivative_probe(ctx):
                 ctx.probe_ok(('gate-derivative', ci, k, a))
 
 
+def qudit_probe(ctx):
+    """the d != 2 branches of rx / rz (gate/_internal.py:186-187, 267-268) are not modelled: observed here only — unitarity,
+    restoration of the qubit gate at d = 2, diag_only consistency, batched shape"""
+    import numqi
+    G = numqi.gate
+    rng = np.random.default_rng(ctx.np_seed + 5)
+    for d in (2, 3, 4, 5):
+        for a in [0.0, math.pi, -math.pi / 2] + [float(x) for x in rng.uniform(-7, 7, size=3)]:
+            for name in ('rx', 'rz'):
+                U = guarded_any(lambda: np.asarray(getattr(G, name)(a, d=d)))
+                if isinstance(U, str) or U.shape != (d, d) or not close(U @ U.conj().T, np.eye(d), 1e-10):
+                    ctx.fail('qudit-constructor:' + name, f'numqi.gate.{name}({a}, d={d}) is not a {d}x{d} unitary', dict(fn='numqi.gate.' + name, args=[a], d=d))
+                    continue
+                if d == 2 and not close(U, (ref_rx if name == 'rx' else ref_rz)(a), 1e-12):
+                    ctx.fail('qudit-constructor:' + name, f'numqi.gate.{name}({a}, d=2) is not the qubit gate', dict(fn='numqi.gate.' + name, args=[a], d=2))
+                    continue
+                ctx.probe_ok(('qudit', name, d, a))
+            D = guarded_any(lambda: np.asarray(G.rz(a, d=d, diag_only=True)))
+            F = guarded_any(lambda: np.asarray(G.rz(a, d=d)))
+            if isinstance(D, str) or isinstance(F, str) or not close(np.diag(D), F, 1e-12):
+                ctx.fail('qudit-constructor:rz-diag_only', f'rz({a}, d={d}, diag_only=True) is not the diagonal of rz({a}, d={d})', dict(fn='numqi.gate.rz', args=[a], d=d))
+            else:
+                ctx.probe_ok(('qudit-diag', d, a))
+        B = guarded_any(lambda: np.asarray(G.rx(np.array([0.1, 0.2, 0.3]), d=d)))
+        if isinstance(B, str) or B.shape != (3, d, d) or not close(B[1], np.asarray(G.rx(0.2, d=d)), 1e-12):
+            ctx.fail('qudit-constructor:rx-batched', f'rx(batched, d={d}) does not have shape (3,{d},{d}) / the items of the scalar calls', dict(fn='numqi.gate.rx', d=d))
+        else:
+            ctx.probe_ok(('qudit-batched', d))
+
+
 def _ctrl_proj(c, n):
     P = np.array([[1.0]])
     for q in range(n):
@@ -1716,7 +1857,7 @@ def probe(ctx):
             continue
         want = c.oracle()
         v = c.value
-        if isinstance(v, str):
+        if isinstance(v, str) and c.key != 'Circuit.num_qubit':
             ctx.fail(c.key + ':raises', f'{c.key} raised on a valid input', c.replay)
             continue
         if c.key == 'Circuit.history':
@@ -1729,6 +1870,12 @@ def probe(ctx):
                 ctx.fail('Circuit.history' if 'raised' not in bad else 'Circuit.history:raises',
                          f'history of one Circuit object: after step {qi} ({c.replay["action"][:120]}) {bad}',
                          dict(c.replay, first_failing_step=qi))
+            else:
+                ctx.probe_ok(('probe',) + tuple(c.ntkey))
+            continue
+        if c.key == 'Circuit.num_qubit':
+            if v != want:
+                ctx.fail(c.key, f'Circuit.num_qubit is {v}, the entries reach {want} qubits', dict(c.replay or {}, observed=v, expected=want))
             else:
                 ctx.probe_ok(('probe',) + tuple(c.ntkey))
             continue
@@ -1756,6 +1903,7 @@ def probe(ctx):
             else:
                 ctx.probe_ok()
     gate_derivative_probe(ctx)
+    qudit_probe(ctx)
     # reference gate arrays used for the model's reading of the vocabulary agree with the live constants
     G = numqi.gate
     live = dict(X=G.X, Y=G.Y, Z=G.Z, H=G.H, S=G.S, T=G.T, Swap=G.Swap)
